@@ -119,6 +119,27 @@ App.__ne__ = _ne
 KEY_BASE = 100
 
 
+class Rec:
+    """a record-like result: indexable by position (rec[0], rec[1], ...), NOT a collections.abc.Sequence, and its
+    iteration order is not its index order (like a mapping whose iteration yields something else than rec[i]).
+    A result written `a, b = f()` with unpack_to / x[i] is read by INDEXING, never by iterating."""
+
+    def __init__(self, items):
+        self.items = list(items)
+
+    def __getitem__(self, i):
+        return self.items[i]
+
+    def __len__(self):
+        return len(self.items)
+
+    def __iter__(self):
+        return iter(list(reversed(self.items)) + [None])
+
+    def as_tuple(self):
+        return tuple(self.items)
+
+
 class Keys:
     """string keys of dict results -> numbers (disjoint from positional indices)"""
 
@@ -149,6 +170,8 @@ def num_const(v):
 
 def enc(v, keys):
     """flat encoding identical to Terms.enc_term"""
+    if isinstance(v, Rec):
+        v = v.as_tuple()
     if v is None:
         return [0]
     if isinstance(v, str):
@@ -180,6 +203,8 @@ def enc(v, keys):
 
 
 def coq_term(v, keys):
+    if isinstance(v, Rec):
+        v = v.as_tuple()
     if v is None:
         return "TNone"
     if isinstance(v, str):
@@ -203,6 +228,8 @@ def coq_term(v, keys):
 
 def shape(v):
     """container kinds (tuple vs list vs dict), which the flat encoding does not distinguish"""
+    if isinstance(v, Rec):
+        v = v.as_tuple()
     if isinstance(v, tuple):
         return ("tuple",) + tuple(shape(x) for x in v)
     if isinstance(v, list):
